@@ -35,3 +35,8 @@ CLAIMED["C01"] = (
  "table agreement lint over the back end's operator/conversion lowering (formatter rows, kind signedness, token->OpCode->constructor chain, narrow-width mask must-pass-through, (src,dst) conversion matrix vs. Go semantics, constant materialisation bit sizes)",
  "Decides the per-operator lowering tables of the WebAssembly back end for every (kind, operator) and (source kind, destination kind) pair: right mnemonic by type and signedness, masks for u8/u16 on every path, shift-count adaptation, conversions as Go defines them, constants parsed with their own width and signedness. Does not decide program behaviour: control flow, aggregates, strings, maps, interfaces, defer and the runtime library are outside these rules.",
  AST_BASE)
+CG_BASE = "trusted: go/types, go/ssa, VTA call graph seeded by CHA (x/tools v0.29.0; no pointer analysis: reflection and calls through library callbacks other than closures are not followed); the frozen triage tables in the checker"
+CLAIMED["C08"] = (
+ "call-graph reachability (VTA) of process exits and explicit panics from the front-end entry points against a frozen triage table; dispatch totality of switches over constant-returning producers; recover-boundary check on parser entry points",
+ "Decides that no os.Exit/log.Fatal/logger.Fatal is reachable from the formatting, detection, parsing and loading entry points, that parser entry points recover their package's bail-out value, that switches over constant-returning producers are total or have a non-panicking default, and that the set of reachable explicit panic sites is exactly the triaged set (a new one is reported). Does not decide implicit run-time panics (index, nil, type assertion), termination or time bounds.",
+ CG_BASE)
